@@ -233,6 +233,27 @@ def export_lines(sol, solver, im, work, idx, k):
         if (r['Task name'], list(r['Allocated Resources']), int(r['Start']), int(r['End']), int(r['Duration']), bool(r['Scheduled'])) != \
                 (name, list(t.assigned_resources), t.start, t.end, t.duration, t.scheduled):
             probs.append(('dataframe_mismatch', name))
+    # --- a caller that edits the frame it received must not change what the solution exports afterwards ---
+    try:
+        if len(df) > 0:
+            df['Start'] = df['Start'] + 100
+            df.drop(df.index[0], inplace=True)
+        df2 = sol.to_df()
+        rows2 = list(csv.DictReader(io.StringIO(sol.to_csv())))
+        if len(df2) != len(sol.tasks) or len(rows2) != len(sol.tasks):
+            probs.append(('export_after_edit_rows', '%d / %d rows for %d tasks' % (len(df2), len(rows2), len(sol.tasks))))
+        for (_, r2), name in zip(df2.iterrows(), sol.tasks):
+            t = sol.tasks[name]
+            if (r2['Task name'], int(r2['Start']), int(r2['End'])) != (name, t.start, t.end):
+                probs.append(('export_after_edit_mismatch', name))
+                break
+        for row2, name in zip(rows2, sol.tasks):
+            t = sol.tasks[name]
+            if (row2['Task name'], int(row2['Start']), int(row2['End'])) != (name, t.start, t.end):
+                probs.append(('csv_after_edit_mismatch', name))
+                break
+    except Exception as e:
+        probs.append(('export_after_edit_failed', type(e).__name__ + ': ' + str(e)[:80]))
     # --- JSON --- (indented and compact text, string and file)
     for compact in (False, True):
         tag = '_compact' if compact else ''
@@ -626,8 +647,7 @@ def run(ctx, replay=None):
                         t = ('TAdd', [('TV', ('VStart', terms.N(tids[d % len(tids)]))), t])
                     p.append(('ONewConstraint', terms.N(cid), False, ('CExpr', ('FLe', t, ('TC', terms.Z(100000))))))
     t1 = time.time()
-    with mp.get_context('fork').Pool(16) as pool:
-        results = pool.map(observe, [(i, p, ctx.seed, ctx.tier, cfg['extra'], ctx.work) for i, p in enumerate(progs)], chunksize=2)
+    results = common.pmap(observe, [(i, p, ctx.seed, ctx.tier, cfg['extra'], ctx.work) for i, p in enumerate(progs)])
     t_impl = time.time() - t1
     cases, where = [], []
     stats = collections.Counter()
